@@ -41,7 +41,7 @@ RULE = (
     "container at fit {nested, numpy} x container at apply {nested, numpy} x nested column naming "
     "{var_i, dim_i} (only where a nested container occurs) x group {perm: all 24 orderings of "
     "the 4 apply instances; sub: all 4 singletons + all 6 pairs}. Training panel: 12 instances, "
-    "24 time points, 2 interleaved classes, deterministic tagged values, random_state fixed to an "
+    "24 time points (MUSE: 16 in the quick tier), 2 interleaved classes, deterministic tagged values, random_state fixed to an "
     "int. The seed also rotates whether y is an ndarray or a pd.Series. A case is non-trivial "
     "when the batch output has at least two distinct rows; distinct = distinct case tuple."
 )
@@ -178,6 +178,7 @@ def gen_cases(tier, seed):
                     for fitc, appc, naming in CONTAINERS:
                         i += 1
                         yield dict(kind=kind, est=name, cols=nc, opt=opt, fam=fam, aset=aset,
+                                   L=16 if (name == "MUSE" and tier == "quick") else L,
                                    fitc=fitc, appc=appc, naming=naming, group=group, rs=0,
                                    yseries=bool((i + seed) % 2))
 
@@ -221,7 +222,8 @@ def run_case(case):
     key = case["est"]
     nc, fam = case["cols"], case["fam"]
     naming, fitc, appc = case["naming"], case["fitc"], case["appc"]
-    X, ks = P.train_panel(N_TRAIN, 2, True, nc, L, fam)
+    Lc = case.get("L", L)
+    X, ks = P.train_panel(N_TRAIN, 2, True, nc, Lc, fam)
     if case["kind"] == "reg":
         y = np.array(P.regression_target(X, ks))
     else:
@@ -233,7 +235,7 @@ def run_case(case):
     if case["aset"] == "train":
         Xa = P.select(X, [1, 4, 6, 11])
     else:
-        Xa, _ = P.apply_panel(4, 2, nc, L, fam)
+        Xa, _ = P.apply_panel(4, 2, nc, Lc, fam)
 
     if case["est"] == "Plateau":
         # plateaus of exactly 0.0 so that the finder has something instance specific to find
